@@ -74,3 +74,19 @@ Definition attr_labels_ok (dstr : N -> str) (attrs : list attr) : bool :=
 Definition attrs_depth_ok (attrs : list attr) : bool :=
   forallb (fun t : attr =>
     negb (snd t) || negb (existsb (fun u : attr => (snd (fst u) =? fst (fst t))%N) attrs)) attrs.
+
+(* every attribute index lies below len(decoded_values) *)
+Definition attrs_in_range (n : N) (attrs : list attr) : bool :=
+  forallb (fun t : attr => (snd (fst t) <? n)%N) attrs.
+
+(* the descriptor ids of the nodes printed without a value *)
+Fixpoint nv_ids (n : wnode) : list N :=
+  match n with
+  | WNoValue id => [id]
+  | WSeq id ms | WFixed id _ _ ms | WDelayed id _ _ ms => id :: nv_ids_list ms
+  | WValue _ => []
+  end
+with nv_ids_list (ns : wnodes) : list N :=
+  match ns with WNil => [] | WCons n r => nv_ids n ++ nv_ids_list r end.
+
+Definition nv_ok (nvstr : N -> str) (id : N) : bool := nv_line_skipped (nvstr id) && nolb (nvstr id).
